@@ -152,12 +152,17 @@ func (e *Env) Define(name string, v Val) *Var {
 
 // Evaluator carries the type declarations and failure state.
 type Evaluator struct {
-	Types    map[string]ast.Expr // named types declared in the evaluated code
-	Failures []string
+	Types       map[string]ast.Expr // named types declared in the evaluated code
+	Failures    []string
 	Unsupported []string
-	Steps    int
-	MaxSteps int
+	Steps       int
+	MaxSteps    int
+	gotoLabel   string   // target of a pending goto (ctlGoto)
+	Panic       *GoPanic // set by Protect when the evaluated code called panic
 }
+
+// GoPanic is raised (as a Go panic) when the evaluated code calls panic(v).
+type GoPanic struct{ V Val }
 
 func New() *Evaluator { return &Evaluator{Types: map[string]ast.Expr{}, MaxSteps: 200000} }
 
@@ -190,7 +195,9 @@ func (ev *Evaluator) Report() {
 func (ev *Evaluator) Protect(f func()) (ok bool) {
 	defer func() {
 		if r := recover(); r != nil {
-			if _, isAbort := r.(abort); !isAbort {
+			if gp, isPanic := r.(GoPanic); isPanic {
+				ev.Panic = &gp
+			} else if _, isAbort := r.(abort); !isAbort {
 				ev.Failures = append(ev.Failures, fmt.Sprint("run-time panic in generated code: ", r))
 			}
 			ok = false
@@ -845,10 +852,52 @@ func (ev *Evaluator) call(env *Env, e *ast.CallExpr) Val {
 			}
 		}
 	}
+	// conversion to an interface type, (interface{})(x) or any(x): the value itself
+	{
+		fun := e.Fun
+		if pe, ok := fun.(*ast.ParenExpr); ok {
+			fun = pe.X
+		}
+		_, isIface := fun.(*ast.InterfaceType)
+		if id, ok := fun.(*ast.Ident); ok && id.Name == "any" && env.Lookup("any") == nil {
+			isIface = true
+		}
+		if isIface && len(e.Args) == 1 {
+			return ev.Eval(env, e.Args[0])
+		}
+	}
+	// (T)(x) with a parenthesised type name, as ssa2ast writes conversions
+	if pe, ok := e.Fun.(*ast.ParenExpr); ok {
+		if id, ok := pe.X.(*ast.Ident); ok && env.Lookup(id.Name) == nil && len(e.Args) == 1 {
+			switch id.Name {
+			case "bool":
+				if b, ok := ev.Eval(env, e.Args[0]).(Bool); ok {
+					return b
+				}
+				ev.fail("compile error: conversion of non-boolean to bool")
+			case "string":
+				if x, ok := ev.Eval(env, e.Args[0]).(Str); ok {
+					return x
+				}
+			}
+			if _, isInt := kindOfName(id.Name); isInt || id.Name == "string" {
+				return ev.call(env, &ast.CallExpr{Fun: id, Args: e.Args})
+			}
+		}
+	}
 	// conversions and builtins
 	switch fn := e.Fun.(type) {
 	case *ast.ArrayType: // []byte("...") or []byte(x)
 		if fn.Len == nil {
+			if k, ok := ev.typeKind(fn.Elt); ok && k == KInt32 && len(e.Args) == 1 {
+				if x, ok := ev.Eval(env, e.Args[0]).(Str); ok { // []rune(s)
+					a := Arr{K: KInt32}
+					for _, r := range x.S {
+						a.E = append(a.E, Int{V: norm(uint64(int64(r)), KInt32), K: KInt32})
+					}
+					return a
+				}
+			}
 			if k, ok := ev.typeKind(fn.Elt); ok && k == KUint8 && len(e.Args) == 1 {
 				if lit, ok := e.Args[0].(*ast.BasicLit); ok && lit.Kind == token.STRING {
 					return Bytes{append([]byte(nil), ev.parseStringLit(lit.Value)...)}
@@ -883,6 +932,8 @@ func (ev *Evaluator) call(env *Env, e *ast.CallExpr) Val {
 					return x
 				}
 				ev.fail("unsupported string conversion")
+			case "panic":
+				panic(GoPanic{ev.Eval(env, e.Args[0])})
 			case "len":
 				switch x := ev.Eval(env, e.Args[0]).(type) {
 				case Bytes:
@@ -1079,14 +1130,31 @@ const (
 	ctlBreak
 	ctlContinue
 	ctlReturn
+	ctlGoto
 )
 
 func (ev *Evaluator) execBlock(env *Env, b *ast.BlockStmt) (ctl, []Val) {
 	inner := NewEnv(env)
-	for _, s := range b.List {
-		if c, r := ev.Exec(inner, s); c != ctlNone {
+	for i := 0; i < len(b.List); {
+		c, r := ev.Exec(inner, b.List[i])
+		if c == ctlGoto {
+			// a goto leaves this block unless one of its statements carries the label
+			target := -1
+			for j, st := range b.List {
+				if ls, ok := st.(*ast.LabeledStmt); ok && ls.Label.Name == ev.gotoLabel {
+					target = j
+				}
+			}
+			if target < 0 {
+				return c, r
+			}
+			i = target
+			continue
+		}
+		if c != ctlNone {
 			return c, r
 		}
+		i++
 	}
 	return ctlNone, nil
 }
@@ -1256,9 +1324,15 @@ func (ev *Evaluator) Exec(env *Env, s ast.Stmt) (ctl, []Val) {
 			res[i] = ev.Eval(env, r)
 		}
 		return ctlReturn, res
+	case *ast.LabeledStmt:
+		return ev.Exec(env, s.Stmt)
 	case *ast.BranchStmt:
+		if s.Tok == token.GOTO && s.Label != nil {
+			ev.gotoLabel = s.Label.Name
+			return ctlGoto, nil
+		}
 		if s.Label != nil {
-			ev.fail("labelled branch unsupported")
+			ev.fail("unsupported labelled branch")
 		}
 		switch s.Tok {
 		case token.BREAK:
